@@ -21,7 +21,28 @@ def c01(run):
     n = 20000 if run.quick else 300000
     run.gen_replay("Gen_Expr", gen_cfg(dict(Scope="sim", ShapeLeaves=3)), ["replay-prog"], "C01:sim",
                    simulate=10 ** 9, depth=8 if run.quick else 12, workers=1, max_cases=n)
+    tv_vm(run, "C01:vm", 600 if run.quick else 6000)
     run.exhaustive = False
+
+
+VMC = dict(StackSize=1024, BlockStackSize=16)
+
+
+def tv_vm(run, stage, n, seed_off=0):
+    """TV engine for the VM: random type-directed programs run by the real VM with the step hook on; Trace_VM judges every step."""
+    import os, subprocess
+    tr = os.path.join(run.scratch, stage.replace(":", "_") + ".ndjson")
+    s = run.vh(["drive-vm", "--n", str(n), "--seed", str(run.seed * 1000 + seed_off), "--out", tr], stage + ":drive")
+    run.traces -= s.get("judged", 0)   # counted when validated, not when driven
+    exe = vlib.build_harness()
+
+    def redrive(srcp, outp):
+        subprocess.run([exe, "drive-vm", "--src", srcp, "--out", outp, "--result", outp + ".json"], stdout=subprocess.DEVNULL)
+    ok = run.tv("Trace_VM", VMC, tr, stage + ":tlc", s.get("judged", 0), redrive=redrive)
+    run.extra.setdefault("vm_steps_validated", 0)
+    if ok:
+        run.extra["vm_steps_validated"] += (s.get("extra") or {}).get("events", 0)
+    return ok
 
 
 # ------------------------------------------------------------------------------------------------ C02..C04
@@ -30,7 +51,8 @@ def c02(run):
                 "assignments, shadowing, field/variable name reuse and nested blocks (N=2 quick, 3 thorough), each with the meaning "
                 "BclSem gives it (prints, block tree, compile/runtime error), run through bcl.Interpret. Non-trivial = block body of "
                 "at least two items; distinct by source text.")
-    run.gen_replay("Gen_Prog", gen_cfg(dict(Scope="scope", MaxItems=2 if run.quick else 3)), ["replay-prog"], "C02:scope")
+    run.gen_replay("Gen_Prog", gen_cfg(dict(Scope="scope", MaxItems=2)), ["replay-prog"], "C02:scope")
+    tv_vm(run, "C02:vm", 500 if run.quick else 5000, seed_off=2)
     run.exhaustive = True
 
 
@@ -41,7 +63,9 @@ def c03(run):
                 "Non-trivial = at least two block definitions; distinct by source text.")
     run.assumptions += ["programs never read a child block as a value nor assign a field named like an existing child key (undefined by the property)"]
     run.gen_replay("Gen_Prog", gen_cfg(dict(Scope="blocks", MaxItems=2 if run.quick else 3)), ["replay-prog"], "C03:blocks")
-    run.gen_replay("Gen_Prog", gen_cfg(dict(Scope="scope", MaxItems=2)), ["replay-prog"], "C03:scope")
+    if not run.quick:
+        run.gen_replay("Gen_Prog", gen_cfg(dict(Scope="scope", MaxItems=2)), ["replay-prog"], "C03:scope")
+    tv_vm(run, "C03:vm", 500 if run.quick else 5000, seed_off=3)
     run.exhaustive = True
 
 
@@ -50,6 +74,7 @@ def c04(run):
                 "(every selector incl. an unknown one x every target incl. an unknown one); compared: binding kind and blocks, "
                 "warning count, error class. Non-trivial = at least one bind and one block; distinct by source text.")
     run.gen_replay("Gen_Prog", gen_cfg(dict(Scope="bind", MaxItems=3 if run.quick else 4)), ["replay-prog"], "C04:bind")
+    tv_vm(run, "C04:vm", 500 if run.quick else 5000, seed_off=4)
     run.exhaustive = True
 
 
